@@ -8,9 +8,9 @@ head = "## 12. Seeded changes (independent sub-agents) and which checks catch th
 i = s.index(head)
 table = subprocess.run([sys.executable, os.path.join(HERE, "tools", "seed_table.py")], capture_output=True, text=True).stdout
 text = head + """
-Seven rounds of 19 fresh sub-agents each (133 changes). Every agent got only the text of one property and its own scratch
-git worktree of /repo under /tmp (nothing from /verif; rounds 2-7 were additionally told which ideas had already
-been used for that property, so that the seven changes per property differ in mechanism (rounds 5-7 were also asked to stay out of the files and functions the earlier ones had touched)). Each wrote one realistic
+Eight rounds of 19 fresh sub-agents each (152 changes). Every agent got only the text of one property and its own scratch
+git worktree of /repo under /tmp (nothing from /verif; rounds 2-8 were additionally told which ideas had already
+been used for that property, so that the eight changes per property differ in mechanism (rounds 5-8 were also asked to stay out of the files and functions the earlier ones had touched)). Each wrote one realistic
 regression (a tidy-up, an off-by-one, a moved statement, a swapped argument, ...) that still passes the 88 baseline
 tests, plus a stand-alone demonstration. Each change was confirmed by `tools/seed_collect.sh` in a *fresh* scratch
 worktree (demo exits 0 on HEAD, 1 with the patch; baseline pytest command passes with the patch) and then evaluated by
@@ -18,9 +18,9 @@ worktree (demo exits 0 on HEAD, 1 with the patch; baseline pytest command passes
 live in `seeded/<id>/` (`patch.diff`, `demo.py`, `notes.md`, `confirm.json`, `eval.json`, `meta.json`); none was ever
 committed to /repo, all worktrees were removed.
 
-**Result: all 133 are reported by their own property's quick check as `VIOLATION` with a concrete failing input** (not
+**Result: all 152 are reported by their own property's quick check as `VIOLATION` with a concrete failing input** (not
 merely as a broken correspondence). That was not so at first: 9 of the first 19, 14 of the second 19, 13 of the
-third 19, 8 of the fourth 19, 11 of the fifth 19, 14 of the sixth 19 and 9 of the seventh 19 were initially missed or seen only as a broken correspondence. Each miss was a hole in a *generator* or a
+third 19, 8 of the fourth 19, 11 of the fifth 19, 14 of the sixth 19, 9 of the seventh 19 and 11 of the eighth 19 were initially missed or seen only as a broken correspondence. Each miss was a hole in a *generator* or a
 missing *clause*, never a reason to weaken a check; what was added (all of it also runs on the unchanged tree):
 
 * round 1: coarse search grids and call provenance (C02), budget stress + reserve correspondence (C03), runs started at
@@ -81,6 +81,22 @@ missing *clause*, never a reason to weaken a check; what was added (all of it al
   ES-ell strategy only sees the sign of a symmetric draw) - no property is affected, nothing was changed.
   One more false alarm of my own (seeds 11 and 12 of a clean-tree sweep): a GENUINE `LinAlgError` inside `GP.fit` (not injected) was recorded as
   a successful attempt, so the model's attempt shapes disagreed - the tracer now records it as the oracle failure it is.
+
+* round 8 (the agents were also asked to mention violations they notice on the UNCHANGED tree): the configured scalar confidence parameter of
+  the search acquisition function, incl. 0 (C18), truthy / falsy spellings of `nonlinear_scaling` through the BADS constructor (C11), start
+  points within half a coarse grid cell of an off-grid face with a thin feasible strip (C02), phased oracle scripts - a run of successes at
+  the mesh cap, failures, successes below the cap (C13), hard bounds 1e12 times wider than the plausible box (C08), `tol_noise = 0` (C04),
+  the selection's reference point right after a poll step (C15), the process-wide logger level as shared state and display levels in
+  foreign histories (C07), the point the TARGET received in poll evaluations + long specified-noise runs down to a mesh of 2^-16 (C14), the
+  accepted forms of `noise_nudge` (C16), a failing FIRST fit of the run (C09). Side remarks followed up and fixed as genuine defects:
+  `hedge_gamma = 0` (23be530), a Python-number `sqrt_beta` (b90116b), `FunctionLogger.add` on an unknown-noise logger (3bbfbfb; the Lean
+  logger model and three theorems were changed with it), an integer `poll_mesh_multiplier` (fd0f0fc). Looked at and NOT pursued (outside what the
+  properties and the checks cover, named here so that they are not lost): `output_fcn` returning True at "init" -> `UnboundLocalError: msg` (the
+  callback is only ever called once, an unfinished feature), `tol_fun = 0` -> `ZeroDivisionError` in the default expression of `hedge_beta`,
+  `use_slice_sampler=True` with `tol_fun > 1` or `noise_nudge = [3, 0]` and four consecutive failed fits (nudged noise bound above the upper
+  bound), objective values >= 1e200 (non-finite GP statistics), a target object that cannot be deep-copied (`OptimizeResult` copies `fun`),
+  `np.longdouble` values beyond the double range, the non-functional `fun_values` option, `display` as process-wide logger state (only what
+  is printed changes), log-coordinates for non-positive points outside the box (already excluded from C11's quantifier).
 
 Two of those generator extensions exposed genuine defects on the pinned tree (section 11: `noise_size` with specified
 noise; three boolean advanced options), which were repaired by `fix:` commits; one more (`fit_lik=False`) is a known finding.
